@@ -47,6 +47,29 @@ for k in range(2, MAXW + 1):
         for rest in itertools.product(words_rest[::(1 if k == 2 else 7)], repeat=k - 1):
             for sep in SEPS[:2] if k > 2 else SEPS:
                 check(sep.join((first,) + rest))
+# cache coherence on a re-used parser object: after parameterDict has been read, assigning new parameters (setter) or parsing
+# another command must be reflected by parameterDict / parameterItems / commandString
+PAIRS = ["X1 Y2", "X5", "E.5 F1200", "S0", "x-3 y+4.", "P T5"]
+for a in PAIRS:
+    for b_ in PAIRS:
+        for how in ("setter", "parse"):
+            cases += 1
+            q = GcodeParser().parse("G1 " + a)
+            _ = q.parameterDict
+            _ = q.commandString
+            if how == "setter":
+                q.parameters = b_
+            else:
+                q.parse("G1 " + b_)
+            exp = {}
+            for (l, v) in rs274.words(b_):
+                if l != "?":
+                    exp[l] = None if v is None else float(v)
+            got = dict((k, v) for (k, v) in q.parameterDict.items() if k != "")
+            items = dict((k, v) for (k, v) in q.parameterItems() if k != "")
+            if got != exp or items != exp or not q.commandString.endswith(b_):
+                violations.append({"clause": "C19.cache-coherence", "input": "%s then %s (%s)" % (a, b_, how),
+                                   "detail": "parameterDict %r, parameterItems %r, commandString %r, reference %r" % (got, items, q.commandString, exp)})
 emit({"name": "bounded/parameter-items", "bounded": True,
       "bound": "word sequences of length <= %d over %d letters x %d number spellings x spacing variants" % (MAXW, len(LETTERS), len(NUMS)),
       "cases": cases, "distinct_nontrivial": len(distinct), "exhaustive": False,
